@@ -1,9 +1,11 @@
 """C18 — resource identity (merge precedence, mandatory keys, purity) and the bounded attribute store."""
+import itertools
 import json
 import os
 import re
 import subprocess
 import sys
+import threading
 import types
 import urllib.parse
 
@@ -26,10 +28,14 @@ RULE = ('ba: op sequences (set/del/merge_in, up to 30 ops) on a REAL BoundedAttr
         'result checked); create: Resource.create (+ plugin-style merges) in a FRESH interpreter per case under a '
         'generated DEEP_RESOURCE_ATTRIBUTES (malformed items, url-encoding, duplicates, white space) and '
         'DEEP_SERVICE_NAME; start: the real Deep.start resource loop with generated ResourceProvider plugins '
-        '(order(), inactive, raising, None-returning), resource read back through convert_resource. Non-trivial = '
+        '(order(), inactive, raising, None-returning), resource read back through convert_resource; sched: 2-3 writer '
+        'THREADS on one real container (new / existing / same / invalid keys, capacity 0,1,2,n,None, one free slot or full), '
+        'a random one of all interleavings of their two regions (arrive at the lock | pass through it) forced by a gated '
+        'stand-in for BoundedAttributes._lock. Non-trivial = '
         'something was evicted/rejected/refused (ba), a key was overridden or a schema conflicted (merge), the '
         'environment contributed or the fallback fired (create/start). Distinct = distinct canonical JSON.')
-TRUSTED = ['bytes.decode (the case carries the decoding outcome to the model), float values opaque (repr)',
+TRUSTED = ['threading.Lock; a writer parked at the lock has executed everything that precedes `with self._lock`',
+           'bytes.decode (the case carries the decoding outcome to the model), float values opaque (repr)',
            'urllib.parse.unquote re-modelled for %XX < 0x80; str.strip/split for ASCII white space',
            'OrderedDict / dict.update iteration order']
 ASSUMPTIONS = ['an undecodable bytes *element* of a sequence is stored as None (as the code and its OpenTelemetry '
@@ -151,6 +157,33 @@ def g_ba(rng):
             'immutable': rng.random() < 0.15, 'ops': ops}
 
 
+def g_sched(rng):
+    """2-3 writer threads on one container; a schedule = order of their regions (arrive at the lock / pass it)."""
+    cap = rng.choice([0, 1, 1, 2, 2, 2, 3, 4, None])
+    n = rng.choice([2, 2, 2, 3])
+    fill = 0 if not cap else rng.choice([max(cap - 1, 0), max(cap - 1, 0), cap, max(cap - 2, 0)])
+    pool = ['a', 'b', 'c', 'd', 'e']
+    init = [[{'s': pool[i]}, {'t': 'int', 'v': i}] for i in range(fill if cap is not None else rng.choice([0, 1, 2]))]
+    writers = []
+    for i in range(n):
+        r = rng.random()
+        if r < 0.55:
+            k = {'s': 'n%d' % i}                                  # a new key
+        elif r < 0.75 and init:
+            k = rng.choice(init)[0]                                # an existing key
+        elif r < 0.85:
+            k = {'s': 'n0'}                                       # the same new key as another writer
+        else:
+            k = g_key(rng, 0.5)
+        if rng.random() < 0.12:
+            writers.append({'op': 'del', 'k': k})
+        else:
+            writers.append({'op': 'set', 'k': k, 'v': g_val(rng) if rng.random() < 0.3 else {'t': 'int', 'v': 100 + i}})
+    scheds = sorted(set(itertools.permutations([i for i in range(n) for _ in (0, 1)])))
+    return {'kind': 'sched', 'cap': cap, 'mvl': rng.choice([None, None, 3]), 'init': init,
+            'immutable': rng.random() < 0.06, 'writers': writers, 'sched': list(rng.choice(scheds))}
+
+
 def g_ctor(rng):
     return {'kind': 'ctor', 'cap_raw': rng.choice(['-1', '-5', "'3'", '2.5', 'None', '0', '3'])}
 
@@ -246,6 +279,8 @@ def gen(rng, tier):
             yield g_merge(rng)
         elif k % 40 == 5:
             yield g_ctor(rng)
+        elif k % 5 == 2:
+            yield g_sched(rng)
         else:
             yield g_ba(rng)
 
@@ -270,6 +305,13 @@ def corpus():
         {'kind': 'ba', 'cap': 1, 'mvl': None, 'init': [[S('a'), I(1)], [S('b'), I(2)], [S('c'), I(3)]],
          'immutable': True, 'ops': [{'op': 'set', 'k': S('z'), 'v': I(2)}, {'op': 'del', 'k': S('c')},
                                     {'op': 'merge', 'kvs': []}, {'op': 'merge', 'kvs': [[S('q'), I(1)]]}]},
+        # two writers of new keys into the last free slot, both at the lock before either passes it
+        {'kind': 'sched', 'cap': 2, 'mvl': None, 'init': [[S('a'), I(1)]], 'immutable': False,
+         'writers': [{'op': 'set', 'k': S('b'), 'v': I(2)}, {'op': 'set', 'k': S('c'), 'v': I(3)}],
+         'sched': [0, 1, 0, 1]},
+        {'kind': 'sched', 'cap': 1, 'mvl': None, 'init': [], 'immutable': False,
+         'writers': [{'op': 'set', 'k': S('b'), 'v': I(2)}, {'op': 'set', 'k': S('c'), 'v': I(3)},
+                     {'op': 'set', 'k': S('b'), 'v': I(4)}], 'sched': [0, 1, 2, 2, 1, 0]},
         {'kind': 'merge', 'chain': [{'attrs': [[S('k'), I(1)], [S('j'), I(2)]], 'url': 'http://s/1'},
                                     {'attrs': [[S('k'), I(3)], [S('bad'), {'t': 'none'}]], 'url': None},
                                     {'attrs': [[S('k'), I(4)]], 'url': 'http://s/2'}]},
@@ -314,6 +356,91 @@ def run_ba(case):
     obs['dict'] = codec.enc_items(ba)
     obs['dropped'] = ba.dropped
     return obs
+
+
+class GatedLock:
+    """stands in for BoundedAttributes._lock: a registered writer thread signals its arrival at the lock and parks
+    until the schedule releases it, then takes the real lock.  Other threads just take the real lock."""
+
+    def __init__(self, real):
+        self.real = real
+        self.gates = {}
+
+    def __enter__(self):
+        g = self.gates.get(threading.get_ident())
+        if g is not None:
+            g.parked = True
+            g.arrived.release()
+            if not g.release.wait(30):
+                raise TimeoutError('writer was not released')
+            g.parked = False
+        self.real.acquire()
+        return self
+
+    def __exit__(self, *a):
+        self.real.release()
+        return False
+
+    def acquire(self, *a, **k):
+        return self.real.acquire(*a, **k)
+
+    def release(self):
+        return self.real.release()
+
+
+class Writer:
+    def __init__(self, ba, lock, op):
+        self.ba, self.lock, self.op = ba, lock, op
+        self.arrived = threading.Semaphore(0)
+        self.release = threading.Event()
+        self.parked = False
+        self.finished = False
+        self.error = None
+        self.thread = None
+
+    def body(self):
+        self.lock.gates[threading.get_ident()] = self
+        try:
+            if self.op['op'] == 'set':
+                self.ba[codec.mk_key(self.op['k'])] = codec.mk_val(self.op['v'])
+            else:
+                del self.ba[codec.mk_key(self.op['k'])]
+        except Exception as e:      # noqa: B902
+            self.error = type(e).__name__
+        finally:
+            self.finished = True
+            self.arrived.release()
+
+    def advance(self):
+        if self.finished:
+            return
+        if self.thread is None:
+            self.thread = threading.Thread(target=self.body, daemon=True)
+            self.thread.start()
+        else:
+            self.release.set()
+        if not self.arrived.acquire(timeout=30):
+            raise core.Infra('schedule driver: writer did not reach its next region in 30 s')
+
+
+def run_sched(case):
+    from deep.api.attributes import BoundedAttributes
+    init = codec.mk_dict(case['init'])
+    ba = BoundedAttributes(case['cap'], init if case['init'] else None, case['immutable'], case['mvl'])
+    lock = GatedLock(ba._lock)
+    ba._lock = lock
+    ws = [Writer(ba, lock, op) for op in case['writers']]
+    for i in case['sched']:
+        ws[i].advance()
+    for w in ws:                    # drain what the schedule left unfinished, in writer order
+        while w.thread is not None and not w.finished:
+            w.advance()
+    for w in ws:
+        if w.thread is not None:
+            w.thread.join(30)
+    ba._lock = lock.real
+    return {'dict': codec.enc_items(ba), 'dropped': ba.dropped, 'len': len(ba),
+            'errors': [w.error for w in ws], 'ran': [w.thread is not None for w in ws]}
 
 
 def run_ctor(case):
@@ -488,7 +615,8 @@ def run_start(case):
 
 def run_impl(case):
     core.use_repo()
-    return {'ba': run_ba, 'ctor': run_ctor, 'merge': run_merge, 'create': run_create, 'start': run_start}[case['kind']](case)
+    return {'ba': run_ba, 'ctor': run_ctor, 'merge': run_merge, 'create': run_create, 'start': run_start,
+            'sched': run_sched}[case['kind']](case)
 
 
 # --------------------------------------------------------------------------------------- reference (from the statement)
@@ -699,6 +827,36 @@ def oracle_ba(case, obs):
     return v
 
 
+def oracle_sched(case, obs):
+    """never more than the capacity; and the outcome (contents in order, dropped, exceptions) is that of SOME serial
+    order of the writes (which evicts oldest first and counts every drop)."""
+    v = []
+    cap = case['cap']
+    if cap is not None and obs['len'] > cap:
+        v.append(f'{obs["len"]} entries in a container of capacity {cap} after concurrent writes')
+    ran = [i for i, r in enumerate(obs['ran']) if r]
+    got = (codec.strip_repr(obs['dict']), obs['dropped'], [obs['errors'][i] for i in ran])
+    serials = []
+    for perm in itertools.permutations(ran):
+        ref = Ref(cap, case['mvl'])
+        ref.merge(codec.mk_dict(case['init']))
+        ref.frozen = case['immutable']
+        errs = {}
+        for i in perm:
+            op = case['writers'][i]
+            if op['op'] == 'set':
+                errs[i] = ref.set(codec.mk_key(op['k']), codec.mk_val(op['v']))
+            else:
+                errs[i] = ref.delete(codec.mk_key(op['k']))
+        serials.append((ref.enc(), ref.dropped, [errs[i] for i in ran]))
+    if got not in serials:
+        v.append(f'outcome {[k for k, _ in got[0]]} dropped={got[1]} errors={got[2]} is not the outcome of any serial '
+                 f'order of the writes; serial outcomes: '
+                 f'{sorted(set((json.dumps([k for k, _ in s[0]]), s[1]) for s in serials))[:4]}')
+    check_clean(obs['dict'], case['mvl'], v)
+    return v
+
+
 def oracle_ctor(case, obs):
     cap = eval(case['cap_raw'], {})
     bad = cap is not None and (not isinstance(cap, int) or cap < 0)
@@ -830,7 +988,7 @@ def oracle_start(case, obs):
 
 def oracle(case, obs):
     return {'ba': oracle_ba, 'ctor': oracle_ctor, 'merge': oracle_merge, 'create': oracle_create,
-            'start': oracle_start}[case['kind']](case, obs)
+            'start': oracle_start, 'sched': oracle_sched}[case['kind']](case, obs)
 
 
 # --------------------------------------------------------------------------------------- model
@@ -851,6 +1009,12 @@ def model_request(case, obs):
                 ops.append({'op': 'del', 'k': op['k']})
         return {'kind': 'ba', 'cap': case['cap'], 'mvl': case['mvl'], 'init': m_kvs(case['init']),
                 'immutable': case['immutable'], 'ops': ops}
+    if k == 'sched':
+        ws = [{'op': 'set', 'k': w['k'], 'v': codec.for_model(w['v'])} if w['op'] == 'set' else
+              {'op': 'del', 'k': w['k']} for w in case['writers']]
+        drain = [i for i in range(len(ws)) for _ in (0, 1)]       # run_sched drains unfinished writers in order
+        return {'kind': 'sched', 'cap': case['cap'], 'mvl': case['mvl'], 'init': m_kvs(case['init']),
+                'immutable': case['immutable'], 'writers': ws, 'sched': list(case['sched']) + drain}
     if k == 'merge':
         return {'kind': 'merge', 'chain': [{'attrs': m_kvs(r['attrs']), 'url': r['url']} for r in case['chain']]}
     if k in ('create', 'start'):
@@ -875,6 +1039,13 @@ def compare(case, obs, resp):
         return ['model error: ' + resp['error']]
     k = case['kind']
     d = []
+    if k == 'sched':
+        for f in ('dropped', 'errors'):
+            if resp[f] != obs[f]:
+                d.append(f'{f}: model {resp[f]} vs implementation {obs[f]}')
+        if resp['dict'] != codec.for_model(codec.strip_repr(obs['dict'])):
+            d.append(f'dict: model {resp["dict"]} vs implementation {codec.strip_repr(obs["dict"])}')
+        return d
     if k == 'ba':
         if 'ctor_raised' in obs:
             return ['implementation constructor raised ' + obs['ctor_raised']]
@@ -912,6 +1083,21 @@ def label(case, obs):
             return f'ba/{c}/frozen'
         ev = obs.get('dropped', 0) > 0
         return f'ba/{c}/' + ('dropped' if ev else 'nodrop')
+    if k == 'sched':
+        sc = case['sched']
+        first = {}
+        overlap = False
+        inside = set()
+        for i in sc:
+            if i not in first:
+                first[i] = True
+                inside.add(i)
+                overlap = overlap or len(inside) > 1
+            else:
+                inside.discard(i)
+        cap = case['cap']
+        return f'sched/{len(case["writers"])}w/' + ('overlap' if overlap else 'serial') + \
+            ('/cap0' if cap == 0 else '/capNone' if cap is None else '/full' if len(case['init']) >= cap else '/room')
     if k == 'merge':
         refused = any(i.get('is_self') for i in obs.get('identity', []))
         return 'merge/' + ('schema-conflict' if refused else 'ok')
@@ -930,6 +1116,8 @@ def nontrivial(case, obs):
     if k == 'ba':
         return obs.get('dropped', 0) > 0 or any(obs.get('errors', [])) or \
             len(obs.get('dict', [])) < len([o for o in case['ops'] if o['op'] == 'set'])
+    if k == 'sched':
+        return label(case, obs).split('/')[2] == 'overlap'
     if k == 'merge':
         return len(obs.get('steps', [])) > 1
     if k == 'ctor':
@@ -951,6 +1139,17 @@ def shrink(case):
             if op['op'] == 'merge' and len(op['kvs']) > 1:
                 for j in range(len(op['kvs'])):
                     yield dict(case, ops=ops[:i] + [dict(op, kvs=op['kvs'][:j] + op['kvs'][j + 1:])] + ops[i + 1:])
+    elif case['kind'] == 'sched':
+        ws = case['writers']
+        if len(ws) > 2:
+            for i in range(len(ws)):
+                ren = {j: (j if j < i else j - 1) for j in range(len(ws)) if j != i}
+                yield dict(case, writers=ws[:i] + ws[i + 1:], sched=[ren[j] for j in case['sched'] if j != i])
+        for i in range(len(case['init'])):
+            yield dict(case, init=case['init'][:i] + case['init'][i + 1:])
+        for i, w in enumerate(ws):
+            if w['op'] == 'set' and w['v'] != {'t': 'int', 'v': 1}:
+                yield dict(case, writers=ws[:i] + [dict(w, v={'t': 'int', 'v': 1})] + ws[i + 1:])
     elif case['kind'] == 'merge':
         ch = case['chain']
         for i in range(len(ch)):
